@@ -85,7 +85,9 @@ def configs_for(case, rng_seed):
     r = random.Random(rng_seed)
     base = ["Borda", "BordaBucket", "Copeland", "KwikSort", "BioCo", "BioConsert[Copeland]", "BioConsert[Borda]"]
     if case["profile"] in ("wide", "cells") and case["m"] <= 20:
-        base += ["PickAPerm", "BioConsert", "ParCons"]
+        # (never the default ParCons: it hands every component of up to 80 elements to the ILP solver, hours of CBC on one
+        # component of 64 elements)
+        base += ["PickAPerm", "BioConsert", "ParCons(Copeland;2)", "ParCons(BioCo;2)"]
     if case["profile"] == "cells":
         base += ["BioConsert"]
     return r.sample(base, min(4, len(base)))
